@@ -218,8 +218,10 @@ class OffsetComment(Comment):
     @property
     def val(self):
         if self._val_cache is None:
-            self._val_cache = "".join(
-                line[self.comment_offset :] for line in self.all.splitlines(True)
+            # Only "\n" separates comment lines. str.splitlines would also
+            # split at form feeds, line separators etc.
+            self._val_cache = "\n".join(
+                line[self.comment_offset :] for line in self.all.split("\n")
             )
         return self._val_cache
 
